@@ -56,6 +56,8 @@ fn ops_of(v: &Value) -> Vec<Op> {
     v.as_array().unwrap().iter().map(|o| match o["o"].as_str().unwrap() {
         "val" => Op::Value(term_of(&o["v"])),
         "var" => Op::Value(Term::Variable(o["n"].as_str().unwrap().to_string())),
+        "un" if o["op"] == "Ffi" => Op::Unary(Unary::Ffi(o["f"].as_str().unwrap().to_string())),
+        "bin" if o["op"] == "Ffi" => Op::Binary(Binary::Ffi(o["f"].as_str().unwrap().to_string())),
         "un" => Op::Unary(match o["op"].as_str().unwrap() { "Negate" => Unary::Negate, "Parens" => Unary::Parens, "Length" => Unary::Length, "TypeOf" => Unary::TypeOf, x => panic!("unary {x}") }),
         "bin" => Op::Binary(binary_of(o["op"].as_str().unwrap())),
         "clo" => Op::Closure(o["params"].as_array().unwrap().iter().map(|p| p.as_str().unwrap().to_string()).collect(), ops_of(&o["body"])),
@@ -100,7 +102,7 @@ fn run_check(ops: Vec<Op>, env: &serde_json::Map<String, Value>, in_token: bool)
     }
     let tok = bb.build_with_key_pair(&root, SymbolTable::new(), &keys::keypair("K1", "ed")).map_err(e)?;
     let tok = Biscuit::from(tok.to_vec().map_err(e)?, root.public()).map_err(e)?;
-    let mut a = ab.limits(big_limits()).build(&tok).map_err(e)?;
+    let mut a = ab.limits(big_limits()).set_extern_funcs(crate::expr::registry()).build(&tok).map_err(e)?;
     Ok(match a.authorize() {
         Ok(_) => "pass".to_string(),
         Err(error::Token::FailedLogic(error::Logic::Unauthorized { .. })) => "fail".to_string(),
